@@ -289,7 +289,7 @@ pub fn spec(id: &str) -> Option<PropSpec> {
             needs_entropy: true,
             needs_clock: true,
             ..base(
-                vec![cs(&ENTROPY, "history", 360, 360, false), cs(&ENTROPY, "marathon", 10, 10, false), cs(&ENTROPY, "fork", 144, 144, true), cs(&ENTROPY, "processes", 24, 48, false), cs(&CONC, "conc-fresh", 72, 288, false)],
+                vec![cs(&ENTROPY, "history", 390, 390, false), cs(&ENTROPY, "marathon", 10, 10, false), cs(&ENTROPY, "fork", 156, 156, true), cs(&ENTROPY, "processes", 24, 48, false), cs(&CONC, "conc-fresh", 72, 288, false)],
                 "cases = (randomized entry point, group, mode in {one call sequence (8N calls), 8 caller threads, 4 process incarnations, two device seeds, all entry points interleaved and compared with each other, two child processes seam on/off, `fork`: a process that has made 0..5 randomized calls forks twice and parent and both workers call again (12 entry points x 2 groups x 6 warm-up counts), `marathon`: 2^18+4 (quick) / 2^22+4 (thorough) calls of one cheap entry point on one thread}); every run is also compared with the earlier runs on its worker thread; \
                  N identical-argument calls per case (quick 256, thorough 4096) at a frozen simulated clock; every exposed ephemeral (u, masks, c1, recomputed r1, commitment, secret, key, challenge, share values) must be pairwise distinct; all cases are non-trivial",
                 vec!["cur-blst"],
